@@ -19,11 +19,15 @@ __attribute__((used)) const char *__asan_default_options() {
 __attribute__((used)) const char *__ubsan_default_options() { return "print_stacktrace=1:halt_on_error=1:exitcode=77"; }
 }
 
+static std::string g_tmpdir = "/verif/build/tmp";
+static int g_cpu_budget = 30;
+static double g_shrink_seconds = 60;
 static double now_s() { struct timespec ts; clock_gettime(CLOCK_MONOTONIC, &ts); return ts.tv_sec + ts.tv_nsec * 1e-9; }
 static void on_prof(int) { emergency_report("WATCHDOG", last_pc_function()); }
 static void watchdog_arm(int seconds) {
   struct itimerval it; memset(&it, 0, sizeof it); it.it_value.tv_sec = seconds; setitimer(ITIMER_PROF, &it, nullptr);
 }
+void watchdog_rearm() { watchdog_arm(g_cpu_budget); }   // engines that execute several simulated runs per plan give each its own CPU budget
 static void death_cb() { const char m[] = "\nEMERGENCY kind=SANITIZER\n"; ssize_t r = write(g_result_fd, m, sizeof m - 1); (void)r; }
 
 static Engine *engine_by_name(const std::string &n) {
@@ -35,9 +39,6 @@ static Engine *engine_by_name(const std::string &n) {
   fprintf(stderr, "unknown engine %s\n", n.c_str()); __real__exit(2);
 }
 
-static std::string g_tmpdir = "/verif/build/tmp";
-static int g_cpu_budget = 30;
-static double g_shrink_seconds = 60;
 
 static Outcome parse_outcome_line(const std::string &line) {
   Outcome o; std::istringstream ls(line); std::string tok; ls >> tok; o.violation = (tok == "V");
@@ -196,10 +197,12 @@ static bool handle_violation(Engine *e, const std::string &engine, const Plan &p
   if (!o1.violation) { printf("FLAKY seed=%llu first=%s second=OK\n", (unsigned long long)seed, inproc ? inproc->cls.c_str() : "crash"); fflush(stdout); return false; }
   if (inproc && (inproc->cls != o1.cls || inproc->hash != o1.hash)) { printf("FLAKY seed=%llu first=%s/%016llx second=%s/%016llx\n", (unsigned long long)seed, inproc->cls.c_str(), (unsigned long long)inproc->hash, o1.cls.c_str(), (unsigned long long)o1.hash); fflush(stdout); return false; }
   Plan minp = plan;
+  { Plan cp = e->concretise(plan, o1); if (cp.str() != plan.str()) { Outcome oc = exec_isolated(e, cp, prop); if (same_class(oc, o1)) { minp = cp; o1 = oc; } } }
+  Plan start = minp;
   int execs = 0;
-  if (do_shrink) { Shrinker s{e, prop, o1}; s.deadline = now_s() + g_shrink_seconds; minp = s.run(plan); execs = s.execs; }
+  if (do_shrink) { Shrinker s{e, prop, o1}; s.deadline = now_s() + g_shrink_seconds; minp = s.run(start); execs = s.execs; }
   Outcome a = exec_isolated(e, minp, prop), b = exec_isolated(e, minp, prop);
-  if (do_shrink && (!same_class(a, o1) || !same_class(b, o1) || a.hash != b.hash)) { minp = plan; a = exec_isolated(e, minp, prop); b = exec_isolated(e, minp, prop); }   // fall back to the unshrunk plan
+  if (do_shrink && (!same_class(a, o1) || !same_class(b, o1) || a.hash != b.hash)) { minp = start; a = exec_isolated(e, minp, prop); b = exec_isolated(e, minp, prop); }   // fall back to the unshrunk plan
   if (!same_class(a, o1) || !same_class(b, o1) || a.hash != b.hash) { printf("FLAKY seed=%llu minimised replay unstable %s/%016llx vs %s/%016llx\n", (unsigned long long)seed, a.cls.c_str(), (unsigned long long)a.hash, b.cls.c_str(), (unsigned long long)b.hash); fflush(stdout); return false; }
   std::string path = write_replay(replaydir, engine, minp, a, seed);
   printf("VIOL prop=%s cls=%s replay=%s hash=%016llx seed=%llu recs_before=%zu recs_after=%zu shrink_execs=%d shrink_s=%.1f%s\n", a.prop.c_str(), a.cls.c_str(), path.c_str(), (unsigned long long)a.hash,
